@@ -880,7 +880,15 @@ def c14_verdict(w: World, rec: dict):
     if best is None or got >= best:
         return got, best, None
     coded = brute_force_goodput(w, rec, as_coded=True)
-    explained = got == (coded if coded is not None else 0) and (coded is None) == (not rec["solved"])
+    # What the as-coded reading predicts for the real decision: its optimum when it has a
+    # feasible point; otherwise the solver finds nothing, every offered task is returned
+    # unplaced, and only the graphs whose reward tasks are all RUNNING still count.
+    baseline = 0
+    for g in dict.fromkeys(t["graph"] for t in info):
+        if all(t["running"] for t in info if t["graph"] == g and t["reward"]):
+            baseline += 1
+    predicted = coded if coded is not None else baseline
+    explained = got == predicted and (coded is None) == (not rec["solved"])
     hopeless = [t for t in info if not t["running"] and t["deadline"] < t["lb"]]
     nonvar_parent = False
     for i, t in enumerate(info):
@@ -1256,6 +1264,27 @@ def corpus(kind: str) -> list[dict]:
             "flags": dict(flags, release_taskgraphs=True, lookahead=10),
             "allowed0": [],
             "uuid_seed": 3,
+        }
+    )
+    # join with one COMPLETED parent (no variables) and one released parent, offered by lookahead
+    out.append(
+        {
+            "now": 0,
+            "pools": one_pool(2),
+            "graphs": [
+                {
+                    "name": "G0",
+                    "tasks": [
+                        task("A", "RELEASED", [st(1)], 7),
+                        task("B", "COMPLETED", [st(1)], 7, prev={"w": 0, "s": 0, "time": 0, "sched_at": 0, "finish": 0}),
+                        task("J", "VIRTUAL", [st(2)], 10, release=None),
+                    ],
+                    "edges": [[0, 2], [1, 2]],
+                }
+            ],
+            "flags": dict(flags, lookahead=10),
+            "allowed0": [],
+            "uuid_seed": 4,
         }
     )
     return out
